@@ -52,7 +52,17 @@ pub async fn start_grpc(app: &Arc<AppShareData>) -> anyhow::Result<u16> {
 
 /// one SDK-like connection: channel, bi-stream set up, pushes collected (and acknowledged as the SDK does)
 pub async fn connect(port: u16, tenant: &str) -> anyhow::Result<GrpcConn> {
-    let channel = tonic::transport::Endpoint::from_shared(format!("http://127.0.0.1:{}", port))?.connect().await?;
+    connect_opt(port, tenant, None).await
+}
+
+/// `gate`: a SLOW subscriber - the bi-stream gets an HTTP/2 window of a few hundred bytes and is not read until the gate
+/// opens, so the server's pushes pile up in the connection's queue (capacity 10 in the product) and behind it
+pub async fn connect_opt(port: u16, tenant: &str, gate: Option<Arc<tokio::sync::Notify>>) -> anyhow::Result<GrpcConn> {
+    let mut ep = tonic::transport::Endpoint::from_shared(format!("http://127.0.0.1:{}", port))?;
+    if gate.is_some() {
+        ep = ep.initial_stream_window_size(Some(300u32));
+    }
+    let channel = ep.connect().await?;
     let mut client = RequestClient::new(channel.clone());
     let mut bi = BiRequestStreamClient::new(channel.clone());
     let (tx, rx) = tokio::sync::mpsc::channel::<Payload>(64);
@@ -62,6 +72,9 @@ pub async fn connect(port: u16, tenant: &str) -> anyhow::Result<GrpcConn> {
     let pushes: Arc<Mutex<Vec<(String, Value)>>> = Arc::new(Mutex::new(vec![]));
     let p2 = pushes.clone();
     tokio::spawn(async move {
+        if let Some(g) = gate {
+            g.notified().await;
+        }
         while let Ok(Some(p)) = inbound.message().await {
             let t = PayloadUtils::get_payload_type(&p).map(|s| s.to_string()).unwrap_or_default();
             let text = String::from_utf8_lossy(&p.body.map(|b| b.value).unwrap_or_default()).to_string();
@@ -516,6 +529,45 @@ where
 }
 
 
+/// "one listener holding several keys ... notified of every later change of every key": a SLOW gRPC subscriber of 30 keys
+/// that does not read its stream while all 30 keys are published one after the other, then reads - every key must have
+/// been announced (the product queues at most 10 pushes per connection; what does not fit has to wait, not vanish)
+async fn burst_slow_subscriber<S, B>(svc: &Rc<S>, port: u16) -> anyhow::Result<Value>
+where
+    S: Service<actix_http::Request, Response = ServiceResponse<B>, Error = actix_web::Error> + 'static,
+    S::Future: 'static,
+    B: actix_web::body::MessageBody + 'static,
+{
+    const N: usize = 30;
+    let gate = Arc::new(tokio::sync::Notify::new());
+    let mut conn = connect_opt(port, "", Some(gate.clone())).await?;
+    let ctx: Vec<Value> = (0..N).map(|j| json!({"dataId": format!("burst-{}", j), "group": "g1", "tenant": "", "md5": ""})).collect();
+    let (rt, body) = grpc_call(&mut conn, "ConfigBatchListenRequest", json!({"listen": true, "configListenContexts": ctx})).await?;
+    if rt != "ConfigChangeBatchListenResponse" {
+        return Err(anyhow::anyhow!("burst: batch listen not answered: {} {}", rt, body));
+    }
+    for j in 0..N {
+        let form = format!("dataId=burst-{}&group=g1&content=burst-content-{}", j, j);
+        let a = http(svc.deref(), test::TestRequest::post().uri("/nacos/v1/cs/configs").insert_header(("Content-Type", "application/x-www-form-urlencoded")).set_payload(form).to_request()).await;
+        if a.status != 200 || a.body != b"true" {
+            return Err(anyhow::anyhow!("burst: publish {} not acknowledged: {}", j, a.status));
+        }
+    }
+    tokio::time::sleep(std::time::Duration::from_millis(400)).await;
+    let before_gate = conn.pushes.lock().unwrap().len();
+    gate.notify_one();
+    let want: BTreeSet<String> = (0..N).map(|j| format!("burst-{}", j)).collect();
+    let mut got: BTreeSet<String> = BTreeSet::new();
+    for _ in 0..120 {
+        got = conn.pushes.lock().unwrap().iter().filter(|p| p.0 == "ConfigChangeNotifyRequest").map(|p| p.1["dataId"].as_str().unwrap_or("").to_string()).collect();
+        if want.is_subset(&got) { break; }
+        tokio::time::sleep(std::time::Duration::from_millis(50)).await;
+    }
+    let missing: Vec<&String> = want.difference(&got).collect();
+    Ok(json!({"kind":"burst","keys":N,"announced":got.intersection(&want).count(),"missing":missing,"read_before_gate":before_gate}))
+}
+
+
 // ------------------------------------------------------------------------------------------------ registry
 fn addr_parts(a: &str) -> (String, u32) {
     let n: u32 = a.trim_start_matches('a').parse().unwrap_or(9);
@@ -742,6 +794,12 @@ pub fn main_front(args: &[String]) -> anyhow::Result<()> {
                         Err(e) => json!({"kind":"result","i":i,"ok":true,"tool_error":e.to_string()}),
                     };
                     println!("{}", r);
+                }
+                if shard == 0 && opt(args_static(), "--no-timing").is_none() {
+                    match burst_slow_subscriber(&svc, port).await {
+                        Ok(v) => println!("{}", v),
+                        Err(e) => println!("{}", json!({"kind":"burst","tool_error":e.to_string()})),
+                    }
                 }
                 if let Some(h) = timing {
                     if let Ok(v) = h.await { println!("{}", v); }
